@@ -1,6 +1,6 @@
 CONSTANTS
   Tier = "quick"
-  SampleN = 700
+  SampleN = 500
 INIT GInit
 NEXT GNext
 CHECK_DEADLOCK FALSE
